@@ -228,6 +228,17 @@ func c11Family(r *hx.Rng, max int) [][]c11Part {
 				rec(append(prefix, arrS(i, x.n)), lvl+1)
 			}
 		case 1:
+			if lvl > 0 && r.Intn(4) == 0 {
+				// an inner collection that turned out empty at run time: one
+				// fork, identified by the indices above it; the levels
+				// below stay undetermined
+				f := append(append([]c11Part(nil), prefix...), c11Part{Mode: 1, RangeKind: 1, RangeLen: 0, IdKind: 2})
+				for k := lvl + 1; k < depth; k++ {
+					f = append(f, c11Part{Mode: 1, Known: true, SrcLen: 2, IdKind: 3})
+				}
+				out = append(out, f)
+				return
+			}
 			for i := 0; i < x.n; i++ {
 				rec(append(prefix, arrV(i, x.n)), lvl+1)
 			}
